@@ -22,6 +22,9 @@ class World:
             class SubTask(Task):
                 prio = 1
 
+                def __len__(self):          # "how many parts has it": a leaf is falsy
+                    return len(self.children)
+
                 @property
                 def label(self):
                     return '%s/%s' % (self.name, self.prio)
@@ -80,6 +83,10 @@ class World:
             return self.ws[0]
         if marker == 'F:dict':
             return {'id': 1}
+        if marker == 'F:tasks':
+            return self.ws[0].tasks            # a query result / task list object instead of its tasks
+        if marker == 'F:kids':
+            return self.ts[0].children
         return object()
 
 
@@ -133,11 +140,12 @@ def snapshot(world):
 
 SEQ_KINDS = {'set_children': 2, 'floordiv': 2, 'move': 2, 'set_preds': 2, 'set_succs': 2, 'lshift': 2,
              'rshift': 2, 'list_lshift': 2, 'list_rshift': 2}
+SEQ3_KINDS = ('dep_lshift', 'dep_rshift')      # sequence argument at position 3
 # which positions of an op hold task indexes (argument side, not the receiver)
 ARG_TASK_POS = {'set_parent': [2], 'append': [2], 'insert': [2], 'remove': [2], 'pred_append': [2],
                 'pred_remove': [2], 'succ_append': [2], 'succ_remove': [2], 'wbs_remove': [2],
                 'bulk_parent': [3]}
-RECV_TASK_POS = {'set_parent': [1], 'set_preds': [1], 'set_succs': [1], 'lshift': [1], 'rshift': [1],
+RECV_TASK_POS = {'dep_lshift': [1], 'dep_rshift': [1], 'set_parent': [1], 'set_preds': [1], 'set_succs': [1], 'lshift': [1], 'rshift': [1],
                  'pred_append': [1], 'pred_remove': [1], 'succ_append': [1], 'succ_remove': [1],
                  'pred_remove_all': [1], 'succ_remove_all': [1]}
 OWN_POS = {'adopt_children': 1, 'set_children': 1, 'floordiv': 1, 'append': 1, 'insert': 1, 'remove': 1, 'move': 1, 'sort': 1,
@@ -171,6 +179,8 @@ def concretise(op, n, nw, shift=0, last_only=False):
                 s = shift if (not last_only or i == len(seq) - 1) else 0
                 seq[i] = (x + s) % n
         op[2] = seq
+    if kind in SEQ3_KINDS:
+        op[3] = [x if x is None or graph.is_foreign(x) else (x + shift) % n for x in op[3]]
     if kind == 'move':
         for p in (3, 4):
             if op[p] is not None:
@@ -314,6 +324,11 @@ def run_op(world, op):
         s = seq(op[2]); return chl(op[1]) << (s if len(s) != 1 else s[0])
     if k == 'list_rshift':
         s = seq(op[2]); return chl(op[1]) >> (s if len(s) != 1 else s[0])
+    if k in ('dep_lshift', 'dep_rshift'):
+        lst = preds(op[1]) if op[2] == 'preds' else succs(op[1])
+        s = seq(op[3])
+        a = s if len(s) != 1 else s[0]
+        return (lst << a) if k == 'dep_lshift' else (lst >> a)
     if k == 'bulk_parent':
         q = chl(op[1])(id_in_=list(op[2]))
         q.parent = None if op[3] is None else T(op[3]); return None
@@ -339,7 +354,7 @@ def run_op(world, op):
 
 HIER = {'adopt_children', 'set_parent', 'set_children', 'floordiv', 'append', 'insert', 'remove', 'move', 'sort', 'reorder',
         'remove_all', 'bulk_parent', 'wbs_remove', 'wbs_remove_all', 'new_task'}
-DEPS = {'set_preds', 'set_succs', 'lshift', 'rshift', 'pred_append', 'pred_remove', 'succ_append',
+DEPS = {'dep_lshift', 'dep_rshift', 'set_preds', 'set_succs', 'lshift', 'rshift', 'pred_append', 'pred_remove', 'succ_append',
         'succ_remove', 'pred_remove_all', 'succ_remove_all', 'list_lshift', 'list_rshift'}
 
 
